@@ -106,6 +106,8 @@ type BObs struct {
 
 type Case struct {
 	ID       int       `json:"id"`
+	Fam      string    `json:"fam,omitempty"` // "" static resolution | "dyn" events through the real handlers
+	Dyn      *DynSpec  `json:"dyn,omitempty"`
 	Class    string    `json:"class"`
 	Plus     bool      `json:"plus"`
 	Resolver bool      `json:"resolver"`
@@ -354,6 +356,10 @@ func runBackend(v *k8s.VerifC14, c *Case, b Backend) (o BObs) {
 }
 
 func runCase(c *Case) {
+	if c.Fam == "dyn" {
+		runDyn(c)
+		return
+	}
 	defer func() {
 		if r := recover(); r != nil {
 			c.Obs = map[string]string{"error": fmt.Sprint(r)}
@@ -788,6 +794,21 @@ func main() {
 		c.Resolver = c.Plus && r.Chance(3, 4)
 		genCluster(r, &c)
 		genBackends(r, &c)
+		runCase(&c)
+		w.Emit(c)
+	}
+	// the dynamic family: a quarter as many cases
+	for _, c := range dynCorpus() {
+		c := c
+		c.ID = id
+		id++
+		runCase(&c)
+		w.Emit(c)
+	}
+	droot := vh.NewRng(a.Seed ^ 0x5eed14d)
+	for i := 0; i < a.N/4; i++ {
+		c := genDyn(droot.Fork(uint64(i)), id)
+		id++
 		runCase(&c)
 		w.Emit(c)
 	}
